@@ -20,7 +20,8 @@ CONSTANTS
     MAXV,        \* most variants of an enum
     MAXF,        \* most fields of a variant
     HLEN,        \* length of the printed histories (0: never print, exhaustive mode)
-    PALETTE      \* "full" | "small"
+    PALETTE,     \* "full" | "small"
+    FOCUS        \* "any" | "ops" (structs deriving the operators) | "deref" (single-field structs deriving Deref / DerefMut)
 
 VARIABLES L, pool, hist, pc, todo
 vars == <<L, pool, hist, pc, todo>>
@@ -67,7 +68,8 @@ Init == L = NoItem /\ pool = NoPool /\ hist = <<>> /\ pc = "s_kind" /\ todo = 0
 SKind ==
     /\ pc = "s_kind"
     /\ \E k \in {"struct", "enum"}, D \in DChoices, m \in {"coherent", "distinct"} :
-          L' = [NoItem EXCEPT !.kind = k, !.D = D, !.mode = m]
+          /\ (FOCUS # "any" => k = "struct")
+          /\ L' = [NoItem EXCEPT !.kind = k, !.D = D, !.mode = m]
     /\ pc' = "s_variant" /\ UNCHANGED <<pool, hist, todo>>
 
 \* declare the next variant (a struct is one variant), or close the item
@@ -76,6 +78,7 @@ SVariant ==
     /\ \/ /\ Len(L.variants) < (IF L.kind = "struct" THEN 1 ELSE MAXV)
           /\ \E sh \in {"unit", "tuple", "named"}, n \in 0..MAXF :
                 /\ (sh = "unit") = (n = 0)
+                /\ (FOCUS = "deref" => n = 1)
                 /\ L' = [L EXCEPT !.variants = Append(@, [shape |-> sh, name |-> IF L.kind = "struct" THEN "Lf" ELSE VName(Len(@) + 1), fields |-> <<>>])]
                 /\ todo' = n
                 /\ pc' = IF n = 0 THEN "s_variant" ELSE "s_field"
@@ -99,6 +102,7 @@ SFlags ==
           /\ ops => L.kind = "struct"                                \* operators are derived from STRUCT definitions
           /\ deref => (L.kind = "struct" /\ LNF(L, 1) = 1)           \* Deref needs exactly one field
           /\ (L.kind = "struct") => dv \in {0, 1}
+          /\ (FOCUS = "ops" => ops) /\ (FOCUS = "deref" => deref)
           /\ L' = [L EXCEPT !.ops = ops, !.deref = deref, !.dvar = dv]
           /\ pool' = [x \in VARS |-> LSet(1, [j \in 1..LNF(L, 1) |-> 0])]
     /\ pc' = "idle" /\ UNCHANGED <<hist, todo>>
